@@ -306,6 +306,34 @@ def poly_mesh(m, atm, sides=(0, 1, 2), rot=0):
     return geo
 
 
+def tri2_mesh(m, atm=0, rot=0):
+    """A right triangle (0,0) (30,0) (0,30) whose bottom side carries two extra nodes (five nodes, two straight angles next
+    to each other), three quadrilaterals below it on the three parts of that side; node cycle of the triangle starts at rot."""
+    geo = m.mulgrid(convention=0, atmos_type=atm)
+    pts = {}
+
+    def nd(x, y):
+        if (x, y) not in pts:
+            name = geo.node_name_from_number(len(pts) + 1)
+            geo.add_node(m.node(name, np.array([float(x), float(y)])))
+            pts[(x, y)] = geo.node[name]
+        return pts[(x, y)]
+    cyc = [(0, 0), (10, 0), (20, 0), (30, 0), (0, 30)]
+    cyc = cyc[rot % 5:] + cyc[:rot % 5]
+    cols = [cyc, [(0, -10), (10, -10), (10, 0), (0, 0)], [(10, -10), (20, -10), (20, 0), (10, 0)], [(20, -10), (30, -10), (30, 0), (20, 0)]]
+    for k, xy in enumerate(cols):
+        geo.add_column(m.column(geo.column_name_from_number(k + 1), [nd(x, y) for x, y in xy]))
+    with core.quiet():
+        for con in geo.missing_connections:
+            geo.add_connection(con)
+        geo.identify_neighbours()
+        geo.add_layers([10.0, 20.0], 0.0)
+        geo.set_default_surface()
+        geo.setup_block_name_index()
+        geo.setup_block_connection_name_index()
+    return geo
+
+
 def lattice_mesh(kind, atm=0):
     m = core.repo_modules("mulgrids")
     with core.quiet():
@@ -349,6 +377,9 @@ def lattice_mesh(kind, atm=0):
             if i % 3 == 1:
                 c.surface = geo.layerlist[0].bottom - 5.0
                 geo.set_column_num_layers(c)
+        if kind in ("3x2", "trap"):
+            # an atmosphere layer whose recorded centre is not its bottom (shipped g4 and g5 have 0.01 m)
+            geo.layerlist[0].centre = geo.layerlist[0].bottom + 2.5
         geo.setup_block_name_index()
         geo.setup_block_connection_name_index()
     return geo
@@ -441,7 +472,8 @@ def op_alphabet(geo, rng, rich):
     ops.append({"op": "decompose_columns", "args": [[]]})
     if big:
         ops.append({"op": "decompose_columns", "args": [[big[0]]]})
-    for c in quads[:2] + ([rng.choice(quads)] if quads and rich else []):
+    # the first, the last two (the newest: columns an earlier refinement made) and a random quadrilateral
+    for c in list(dict.fromkeys(quads[:1] + quads[-2:] + ([rng.choice(quads)] if quads and rich else []))):
         ops.append({"op": "split_column", "args": [c.name, c.node[rng.randrange(4)].name]})
     free = [n for n in ("  x", "  y", " zz") if n not in geo.column]
     if free and names:
